@@ -8,7 +8,10 @@ package interp
 // bytes are ASCII (checked, not assumed).
 
 import (
+	"reflect"
+	"regexp"
 	"regexp/syntax"
+	"strings"
 )
 
 func (i *interpreter) regexpNFA(pattern string, subject []value) (*Term, bool) {
@@ -148,4 +151,109 @@ func (i *interpreter) regexpNFA(pattern string, subject []value) (*Term, bool) {
 		cur = reach
 	}
 	return matched, true
+}
+
+// ---- other Regexp methods: host fallback for concrete operands
+
+// regexpHostMethods are the (*regexp.Regexp) methods answered by the host's regexp
+// package when the pattern and every operand are concrete. With a symbolic subject
+// the NFA model decides whether a match is possible at all on this path: if not, the
+// method's no-match result is exact (nil, or the subject unchanged); otherwise the
+// engine answers inconclusive, since match extents over symbolic bytes are not modelled.
+var regexpHostMethods = []string{
+	"ReplaceAllString", "ReplaceAllLiteralString", "ReplaceAll", "ReplaceAllLiteral",
+	"FindString", "FindStringIndex", "FindStringSubmatch", "FindStringSubmatchIndex",
+	"FindAllString", "FindAllStringIndex", "FindAllStringSubmatch",
+	"Find", "FindIndex", "FindSubmatch", "FindSubmatchIndex", "FindAll", "FindAllSubmatch",
+	"Split", "NumSubexp", "SubexpNames", "SubexpIndex", "LiteralPrefix", "Longest",
+}
+
+func init() {
+	for _, m := range regexpHostMethods {
+		m := m
+		externals["(*regexp.Regexp)."+m] = func(fr *frame, args []value) value { return fr.i.regexpHost(fr, m, args) }
+	}
+	externals["regexp.QuoteMeta"] = func(fr *frame, args []value) value {
+		s, ok := args[0].(string)
+		if !ok {
+			fr.i.abort("regexp.QuoteMeta of a symbolic string")
+		}
+		return regexp.QuoteMeta(s)
+	}
+}
+
+func (i *interpreter) regexpHost(fr *frame, method string, args []value) value {
+	pat := i.regexpPattern(args[0])
+	ps, ok := pat.(string)
+	if !ok {
+		i.abort("regexp model: (*Regexp).%s with a symbolic pattern", method)
+	}
+	re, err := regexp.Compile(ps)
+	if err != nil {
+		i.abort("regexp model: pattern does not compile: %v", err)
+	}
+	mv := reflect.ValueOf(re).MethodByName(method)
+	mt := mv.Type()
+	in := make([]reflect.Value, len(args)-1)
+	concrete := len(args)-1 == mt.NumIn()
+	for k := 1; concrete && k < len(args); k++ {
+		v, ok := toGo(args[k], mt.In(k-1))
+		if !ok {
+			concrete = false
+			break
+		}
+		in[k-1] = v
+	}
+	if concrete {
+		out := mv.Call(in)
+		if len(out) == 0 {
+			return nil
+		}
+		if len(out) == 1 {
+			r, ok := fromGo(out[0])
+			if !ok {
+				i.abort("regexp model: result of %s not convertible", method)
+			}
+			return r
+		}
+		tup := make(tuple, len(out))
+		for k := range out {
+			r, ok := fromGo(out[k])
+			if !ok {
+				i.abort("regexp model: result of %s not convertible", method)
+			}
+			tup[k] = r
+		}
+		return tup
+	}
+	// symbolic subject: exact only when no match is possible on this path
+	if len(args) >= 2 {
+		var subj []value
+		switch s := args[1].(type) {
+		case string, symstr:
+			subj = strBytes(s)
+		case []value:
+			subj = s
+		}
+		if subj != nil || args[1] != nil {
+			if m, ok := i.regexpNFA(ps, subj); ok && !i.decide(m) {
+				switch {
+				case strings.HasPrefix(method, "ReplaceAll"):
+					if b, isBytes := args[1].([]value); isBytes {
+						return append([]value(nil), b...)
+					}
+					return args[1]
+				case method == "FindString":
+					return ""
+				case method == "Split":
+				default:
+					if mt.NumOut() == 1 && (mt.Out(0).Kind() == reflect.Slice) {
+						return []value(nil)
+					}
+				}
+			}
+		}
+	}
+	i.abort("regexp model: (*Regexp).%s on a symbolic subject that may match", method)
+	return nil
 }
